@@ -24,3 +24,11 @@ package measure
 func verifLoopsStarted(*tsTable, chan *flusherIntroduction, chan *mergerIntroduction) {}
 
 func verifFlusherGate(*tsTable) {}
+
+func verifSnapshotReplaced(*tsTable, *snapshot) {}
+
+func verifSnapshotRef(*snapshot, int32, int32) {}
+
+func verifPartReleased(*partWrapper) {}
+
+func verifPartRemoving(*partWrapper) {}
